@@ -13,14 +13,17 @@ From Verif Require Import Json Outcome Match PatIndex State StateSpec CascadeSpe
 
 Theorem store_mirrors_memory_hooks : store_mirrors_memory_hooks_statement.
 Proof.
-  intros k hooks ops Hh. cbv zeta. unfold reachable.
-  apply fold_sstep_M; [exact Hh|split; reflexivity].
+  intros k hooks ops. cbv zeta. unfold reachable.
+  apply fold_sstep_M. split; reflexivity.
 Qed.
 
 Theorem store_mirrors_memory : store_mirrors_memory_statement.
 Proof.
-  intros k ops. apply store_mirrors_memory_hooks. intros _. apply forallb_op_hook_ok_nohooks.
+  intros k ops. apply store_mirrors_memory_hooks.
 Qed.
+
+Theorem hook_reject_leaves_no_residue : hook_reject_leaves_no_residue_statement.
+Proof. exact hook_reject_leaves_no_residue_main. Qed.
 
 Theorem reachable_state_wf : reachable_wf_statement.
 Proof. exact reachable_wf. Qed.
@@ -46,7 +49,6 @@ Proof. exact reload_equiv_reachable_hooks. Qed.
 Theorem reload_equiv_reachable : reload_equiv_reachable_statement.
 Proof.
   intros k ops now. apply (DurableReach.reload_equiv_reachable_hooks k false ops now).
-  intros _. apply forallb_op_hook_ok_nohooks.
 Qed.
 
 Theorem storage_failure_is_reported : storage_failure_is_reported_statement.
@@ -129,7 +131,7 @@ Proof. exact load_drops_expired_main. Qed.
 
 (** * Witnesses (by computation), restated *)
 
-Definition hook_reject_leaves_residue_counterexample := DurableReach.hook_reject_leaves_residue_counterexample.
+Definition hook_reject_leaves_no_residue_example := DurableReach.hook_reject_leaves_no_residue_example.
 Definition failed_add_modifies_memory_counterexample := DurableReach.failed_add_modifies_memory_counterexample.
 Definition failed_clear_empties_memory_counterexample := DurableReach.failed_clear_empties_memory_counterexample.
 Definition purge_errors_swallowed_example := DurableFail.purge_errors_swallowed_example.
@@ -163,7 +165,8 @@ Print Assumptions never_expires_without_expiry.
 Print Assumptions load_drops_expired.
 Print Assumptions load_expired_record_not_loaded.
 Print Assumptions load_expired_record_not_in_facts.
-Print Assumptions hook_reject_leaves_residue_counterexample.
+Print Assumptions hook_reject_leaves_no_residue.
+Print Assumptions hook_reject_leaves_no_residue_example.
 Print Assumptions failed_add_modifies_memory_counterexample.
 Print Assumptions failed_clear_empties_memory_counterexample.
 Print Assumptions purge_errors_swallowed_example.
